@@ -1,0 +1,16 @@
+//go:build verif
+
+package runs
+
+import "github.com/nyaruka/goflow/flows"
+
+// VerifTemplateObserver, when set (only in builds with the verif tag), is told about every template a run evaluates,
+// together with the escaping-free text it evaluated to. It lets an external monitor know which templates a run actually
+// evaluated, which isn't otherwise observable from events.
+var VerifTemplateObserver func(run flows.Run, template string, isValue bool)
+
+func observeTemplate(r *run, template string, isValue bool) {
+	if VerifTemplateObserver != nil {
+		VerifTemplateObserver(r, template, isValue)
+	}
+}
